@@ -1,4 +1,5 @@
 import Pog.Props.C02
+import Pog.Props.Loader
 import Pog.Props.Dc
 import Pog.Lemmas.GenCode
 /-
@@ -30,6 +31,14 @@ import Pog.Lemmas.GenCode
     sorted_props_is_sorted                 required properties first, each group in ascending code-point order, a permutation of the properties
 -/
 -- INDEX Pog.DcProps: sorted_props_is_sorted, sorted_props_order_independent, sorted_props_required_order_independent, generate_order_independent
+/-
+  C19 at the loader (Pog/Model/Loader.lean; claimed from Pog/Props/Loader.lean):
+    parse_is_local                         what one operation is parsed into depends on its own node, the path-level parameters, ITS operation id
+                                           and the component tables as lookup functions only: permuting the entries of
+                                           components.parameters / responses / requestBodies changes nothing
+    promotion_name_*                       the names requested for promoted inline schemas are functions of (operation id, code / parameter name)
+-/
+-- INDEX Pog.LoaderProps: parse_is_local, parse_depends_on_lookups_only, promotion_name_media, promotion_name_response, promotion_name_parameter, promotion_name_body
 namespace Pog.C19
 open Pog Pog.Prs Pog.Trk Pog.C02
 
